@@ -67,7 +67,7 @@ class DynamicDisk(Disk):
         self._sectors_per_block = self.header.block_size // SECTOR_SIZE
         # Sector bitmaps are padded to SECTOR_SIZE boundaries
         # Save bitmap size in sectors
-        self._sector_bitmap_size = ((self._sectors_per_block // 8) + SECTOR_SIZE - 1) // SECTOR_SIZE
+        self._sector_bitmap_size = (((self._sectors_per_block + 7) // 8) + SECTOR_SIZE - 1) // SECTOR_SIZE
 
     def read_sectors(self, sector: int, count: int) -> bytes:
         result = []
